@@ -28,7 +28,7 @@ func init() {
 		twin("C04", "C04-b1", "combinator-given-another-level", "parser/parser.go", "return p.withExpressionPrecedence(precedence, func() ast.Expression {", "return p.withExpressionPrecedence(precedence+1, func() ast.Expression {", "R4.5", "save and set"),
 		twin("C04", "C04-b1", "combinator-calls-the-body-twice", "parser/parser.go", "\treturn parse()", "\tparse()\n\treturn parse()", "R4.1", "interceptor called exactly once"),
 		twin("C10", "C10-r3-1", "reported-line-break-ignored-by-the-skipper", "lexer/lexer.go", "\t\tif l.skipWhitespace() {\n\t\t\tl.hadNewlineBefore = true\n\t\t}", "\t\tl.skipWhitespace()", "R10.6", "skipper: return"),
-		twin("C10", "C10-r3-1", "comment-helper-never-reports", "lexer/lexer.go", "\treturn strings.TrimRight(text, \" \"), sawNewline", "\treturn strings.TrimRight(text, \" \"), false", "R10.6", "skipper: return"),
+		twin("C10", "C10-r3-1", "comment-helper-never-reports", "lexer/lexer.go", "\treturn commentText, sawNewline", "\treturn commentText, false", "R10.6", "skipper: return"),
 		twin("C10", "C10-r3-1", "report-assigned-instead-of-ored", "lexer/lexer.go", "\t\t\tif sawNewline {\n\t\t\t\tl.hadNewlineBefore = true\n\t\t\t}", "\t\t\tl.hadNewlineBefore = sawNewline", "R10.6", "stored into the after-newline flag"),
 		twin("C11", "C11-r3-1", "for-arm-bypasses-the-converter", "parser/base_parser_functions.go", "return statementOrNil(p.ParseForStatement())", "return p.ParseForStatement()", "R11.1", "ForStatement"),
 		twin("C15", "C15-r3-2", "start-of-output-test-hoisted", "ast/code_writer_comments.go", "\tfor _, entry := range rest {\n\t\tif !cw.atOutputStart() {", "\tatStart := cw.atOutputStart()\n\tfor _, entry := range rest {\n\t\tif !atStart {", "R15.7", "emptiness test"),
